@@ -12,6 +12,7 @@ RULE = ("seeded streams for 1-3 real IntroducerClient subscribers: 1-4 real publ
         "duplicate, wrong key, flipped message/signature bytes, malformed signature/key encodings, non-tuple elements, and validly signed but malformed announcements "
         "(not JSON, no service-name, missing or string seqnum) in drawn orders; checks authenticity, per-key seqnum monotonicity, that bad elements do not suppress "
         "good ones of the same batch, and convergence after faults stop; non-trivial = >=3 probe kinds; distinct = probe-count fingerprint")
+RULE += "; plus periods in which the subscriber's announcement cache file cannot be written"
 TECHNIQUE = "deterministic simulation: seeded adversarial announcement streams (forge/replay/reorder/duplicate) against real introducer client and service"
 LEVEL_TEXT = "seeded search over announcement streams; sampling, not enumeration"
 LEVEL_NOTE = "real: IntroducerClient, IntroducerService, sign/unsign, ed25519; stub: foolscap wire (SimRef; connection establishment is done by the harness calling _got_introducer), reactor"
